@@ -146,7 +146,14 @@ pub fn enumerate(a: &Ast, fam: Fam) -> Vec<Mal> {
             }
         }
         // protocol names of other lengths (0..=12 bytes), spelled into a re-encoded CONNECT
-        for nm in ["", "M", "MQT", "MQTTT", "MQIsd", "MQIsdpX", "MQTT-SN", "MQTTMQTT", "MQIsdpv3", "MQTT 3.1.1", "MQIsdpMQIsdp"] {
+        for nm in [
+            "", "M", "MQT", "MQTTT", "MQIsd", "MQIsdpX", "MQTT-SN", "MQTTMQTT", "MQIsdpv3", "MQTT 3.1.1", "MQIsdpMQIsdp",
+            // same letters, other case; NUL padding before / after
+            "mqtt", "Mqtt", "MQTt", "MQISDP", "mqisdp", "MqIsDp", "MQIsdP", "\0MQTT", "\0\0MQTT", "\0MQIsdp", "MQTT\0", "MQIsdp\0", " MQTT", "MQTT ",
+        ] {
+            if nm.as_bytes() == c.proto_name.0.as_slice() {
+                continue;
+            }
             let mut b = (**c).clone();
             b.proto_name = Bs::s(nm);
             let f = refcodec::ref_encode(&Ast::Connect(Box::new(b)), fam, &st).bytes;
@@ -224,6 +231,104 @@ pub fn enumerate(a: &Ast, fam: Fam) -> Vec<Mal> {
             }
         }
     }
+    // 12a. ill-formed UTF-8 *sequences* spliced into a string (re-encoded, so lengths stay right)
+    {
+        const BAD: [&[u8]; 9] = [
+            &[0xED, 0xA0, 0x80],                   // lone high surrogate
+            &[0xED, 0xB0, 0x80],                   // lone low surrogate
+            &[0xED, 0xA0, 0x80, 0xED, 0xB0, 0x80], // CESU-8 surrogate pair
+            &[0xC0, 0x80],                         // overlong NUL (modified UTF-8)
+            &[0xE0, 0x80, 0x80],                   // overlong
+            &[0xF4, 0x90, 0x80, 0x80],             // above U+10FFFF
+            &[0x80],                               // stray continuation
+            &[0xC3],                               // truncated sequence
+            &[0xF0, 0x9F, 0x98],                   // truncated 4-byte sequence
+        ];
+        // string fields reachable through the AST: client id, user name, reason/other string
+        // properties, user property halves, topics
+        let mut variants: Vec<(String, Ast)> = Vec::new();
+        let splice = |b: &Bs, bad: &[u8], at_end: bool| -> Option<Bs> {
+            let mut v = b.0.clone();
+            if at_end {
+                v.extend_from_slice(bad);
+            } else {
+                let mut n = v.len() / 2;
+                while n > 0 && (v[n] & 0xC0) == 0x80 {
+                    n -= 1;
+                }
+                let tail = v.split_off(n);
+                v.extend_from_slice(bad);
+                v.extend_from_slice(&tail);
+            }
+            if v.len() > 65_535 || std::str::from_utf8(&v).is_ok() {
+                None
+            } else {
+                Some(Bs(v))
+            }
+        };
+        for (bi, bad) in BAD.iter().enumerate() {
+            let at_end = bi % 2 == 0;
+            let mut b = a.clone();
+            let mut site = String::new();
+            match &mut b {
+                Ast::Connect(c) => {
+                    if let Some(x) = splice(&c.client_id, bad, at_end) {
+                        c.client_id = x;
+                        site = "client_id".into();
+                    }
+                }
+                Ast::Publish { topic, .. } => {
+                    if let Some(x) = splice(topic, bad, at_end) {
+                        *topic = x;
+                        site = "topic".into();
+                    }
+                }
+                Ast::Subscribe { topics, .. } => {
+                    if let Some(x) = splice(&topics[0].0, bad, at_end) {
+                        topics[0].0 = x;
+                        site = "filter".into();
+                    }
+                }
+                Ast::Unsubscribe { topics, .. } => {
+                    if let Some(x) = splice(&topics[0], bad, at_end) {
+                        topics[0] = x;
+                        site = "filter".into();
+                    }
+                }
+                _ => {}
+            }
+            if site.is_empty() {
+                if let Some(p) = b.props_mut() {
+                    for (_, v) in p.iter_mut() {
+                        match v {
+                            PVal::Str(x) => {
+                                if let Some(y) = splice(x, bad, at_end) {
+                                    *x = y;
+                                    site = "string property".into();
+                                    break;
+                                }
+                            }
+                            PVal::Pair(k, x) => {
+                                let tgt = if bi % 3 == 0 { k } else { x };
+                                if let Some(y) = splice(tgt, bad, at_end) {
+                                    *tgt = y;
+                                    site = "user property".into();
+                                    break;
+                                }
+                            }
+                            _ => {}
+                        }
+                    }
+                }
+            }
+            if !site.is_empty() {
+                variants.push((format!("{site}:{:02x?}", bad), b));
+            }
+        }
+        for (site, b) in variants {
+            out.push(Mal { name: "ill-formed-utf8", site, frame: refcodec::ref_encode(&b, fam, &st).bytes, expect: Expect::All("InvalidString".into()) });
+        }
+    }
     // 12b. boundary between two adjacent strings moved into the middle of a code point
     {
         let mut b = a.clone();
@@ -237,7 +342,15 @@ pub fn enumerate(a: &Ast, fam: Fam) -> Vec<Mal> {
         if let Ast::Publish { props, payload, .. } = a {
             if flagged(props) && !payload.is_empty() {
                 for s in spans_of(SK::Payload) {
-                    for (i, b) in [(0usize, 0x80u8), (s.len / 2, 0xFF), (s.len - 1, 0xE4), (s.len - 1, 0xBF)] {
+                    let mut sites = vec![(0usize, 0x80u8), (s.len / 2, 0xFF), (s.len - 1, 0xE4), (s.len - 1, 0xBF)];
+                    // a lead byte just before / a stray continuation just after every 64 KiB boundary
+                    let mut k = 65_536;
+                    while k < s.len {
+                        sites.push((k - 1, 0xC3));
+                        sites.push((k, 0xA9));
+                        k += 65_536;
+                    }
+                    for (i, b) in sites {
                         let mut f = e.bytes.clone();
                         f[s.off + i] = b;
                         if std::str::from_utf8(&f[s.off..s.off + s.len]).is_ok() {
@@ -513,4 +626,31 @@ pub fn enumerate(a: &Ast, fam: Fam) -> Vec<Mal> {
         }
     }
     out
+}
+
+
+/// Two catalogue malformations of the same packet applied at once (only pairs that are in-place
+/// byte edits of the same spelled-out frame can be merged). No error is predicted for a pair:
+/// scenarios use these streams for differential and schedule-independence oracles.
+pub fn pair(a: &Ast, fam: Fam, pick: u64) -> Option<Vec<u8>> {
+    let st = Style { spell: 2, ..Style::default() };
+    let base = refcodec::ref_encode(a, fam, &st).bytes;
+    let mals: Vec<Mal> = enumerate(a, fam).into_iter().filter(|m| m.frame.len() == base.len() && m.frame != base).collect();
+    if mals.len() < 2 {
+        return None;
+    }
+    let i = (pick % mals.len() as u64) as usize;
+    let j = ((pick / mals.len() as u64) % mals.len() as u64) as usize;
+    if i == j {
+        return None;
+    }
+    let mut f = base.clone();
+    for m in [&mals[i], &mals[j]] {
+        for (k, b) in m.frame.iter().enumerate() {
+            if *b != base[k] {
+                f[k] = *b;
+            }
+        }
+    }
+    Some(f)
 }
